@@ -49,6 +49,9 @@ def cfgs_for(d, p, cfgset, tier):
             for st in ('dense', 'sparse'):
                 out.append({'entry': 'conelp', 'storage': st, 'kkt': k})
         out.append({'entry': 'conelp', 'storage': 'dense', 'kkt': 'ref'})
+        # one-sided valid start points: the missing one is computed by the solver and shifted into the cone
+        out.append({'entry': 'conelp', 'storage': 'dense', 'kkt': None, 'start': 'primal'})
+        out.append({'entry': 'conelp', 'storage': 'dense', 'kkt': None, 'start': 'dual'})
         if only_l:
             out.append({'entry': 'lp', 'storage': 'dense', 'kkt': 'ldl'})
             out.append({'entry': 'lp', 'storage': 'dense', 'kkt': None, 'solver': 'glpk'})
